@@ -188,6 +188,13 @@ def durationF (v : Variant) (u : TimeUnit) : TArg → Rat
     | .current => F64.ofInt ps
     | .intended => F64.fdiv (F64.ofInt ps) (cf u)
 
+/-- the interval (a binary64 number of the unit `u`) derived from a rate:
+`sampling_rate.to_period() / float(c_f)` -/
+def intervalOfRate (v : Variant) (u : TimeUnit) (hz : Rat) : Except Err Rat :=
+  match toPeriod v hz with
+  | .ok p => .ok (F64.fdiv (F64.ofInt p) (cf u))
+  | .error e => .error e
+
 /-- the block "Calculate the sampling_interval or sampling_rate": returns the interval argument
 (as it is then cast by `TimeArray(sampling_interval, time_unit)`) and the rate in Hz.
 `n` is `length` (axis) or the data length (series). -/
@@ -204,13 +211,13 @@ def deriveIntervalRate (v : Variant) (u : TimeUnit) (n : Option Nat)
   | none =>
     match rate with
     | some (.freq hz) =>
-      match toPeriod v hz with
-      | .ok p => .ok (.num (.flt (F64.fdiv (F64.ofInt p) (cf u))), hz)
+      match intervalOfRate v u hz with
+      | .ok x => .ok (.num (.flt x), hz)
       | .error e => .error e
     | some (.num r) =>
       let hz := frequency (numToF r) .s
-      match toPeriod v hz with
-      | .ok p => .ok (.num (.flt (F64.fdiv (F64.ofInt p) (cf u))), hz)
+      match intervalOfRate v u hz with
+      | .ok x => .ok (.num (.flt x), hz)
       | .error e => .error e
     | none =>
       match duration, n with
